@@ -1343,3 +1343,6 @@ func (h *MyHost) AddRelay(t Txn, recvAt time.Time) {
 	h.Chan.Relay = append(h.Chan.Relay, relayEntry{t, recvAt})
 	h.Chan.relaySet[t.key()] = true
 }
+
+// ProcCut reports (world lock held) whether proc cannot reach target's server over the network.
+func (w *MyWorld) ProcCut(proc, target string) bool { return w.procCut(proc, target) }
